@@ -420,8 +420,8 @@ def run(ctx):
                 "failed": f"translator failed closed: {e}", "log": f"Error: translator failed closed: {e}"}
     lap("coq_props")
     r = vlib.rng(ctx.seed, "C14")
-    n_types = 500 if ctx.quick else 6000
-    n_prog_funcs = 36 if ctx.quick else 400
+    n_types = 1500 if ctx.quick else 8000
+    n_prog_funcs = 90 if ctx.quick else 480
     G = Gen(r, 10 if ctx.quick else 24)
     # ---- corpus first
     corpus = json.loads((ctx.dir / "corpus" / "types.json").read_text())
@@ -450,7 +450,7 @@ def run(ctx):
                        {"type": t, "error": x["err"]})
     encs = [x["enc"] for _, x in built]
     # ---- live tables vs generated / trusted tables
-    table_notes = check_tables(ctx, tables)
+    table_notes = check_tables(ctx, tables) if translator_error is None else {"skipped": "translator failed closed; generated table is stale"}
     # ---- model evaluation
     model = None
     have_model = translator_error is None and (vlib.COQ / "C14" / "Model.vo").exists()
